@@ -165,7 +165,7 @@ pub fn run(ctx: &Ctx) -> i32 {
     );
     rep.assume("a `.word` list that continues on the following line is covered by its directive node");
     let per_shard = ctx.tier.pick(6, 400);
-    let acc = run_sharded(ctx.jobs, |shard| {
+    let acc = run_sharded(ctx, |shard| {
         let mut acc = Acc::new();
         for k in 0..per_shard {
             let mut rng = Rng::derive(ctx.seed, 7_000 + shard as u64, k as u64);
